@@ -4,62 +4,109 @@ package main
 
 import (
 	"go/token"
-	"go/types"
 
 	"golang.org/x/tools/go/ssa"
 )
 
+// runC04R6: an effective weight computed by subtraction is clamped at zero. Sites: the stores to Target.Weight in the
+// region of the ring builder whose value derives from a floating-point subtraction. The stored value is expanded
+// into the definitions that reach it (phi edges, local variables, results of helpers, arguments of helpers); every
+// definition that still carries the raw difference must be chosen only where the difference is known not to be
+// negative: on the false edge of `raw < 0`, under a comparison of the operands of the subtraction, or through
+// max(raw, 0).
 func runC04R6(c *Ctx) {
-	weigh := c.method("route", "Route", "weighTargets")
-	if weigh == nil {
+	b := c04cachedBuilder(c)
+	if b == nil {
+		c.undecided("C04.R6", "anchor|ring builder", "the ring builder does not resolve")
 		return
 	}
 	isFloatSub := func(v ssa.Value) bool {
-		b, ok := v.(*ssa.BinOp)
-		if !ok || b.Op != token.SUB {
-			return false
-		}
-		bt, ok := b.Type().Underlying().(*types.Basic)
-		return ok && bt.Info()&types.IsFloat != 0
+		bo, ok := v.(*ssa.BinOp)
+		return ok && bo.Op == token.SUB && c04isFloat(bo.Type())
 	}
 	n := 0
-	eachInstr(weigh, func(i ssa.Instruction) {
+	eachInstrOf(b.reg, func(f *ssa.Function, i ssa.Instruction) {
 		st, ok := i.(*ssa.Store)
-		if !ok {
-			return
-		}
-		if _, isW := fieldOf(st.Addr, "route.Target", "Weight"); !isW {
+		if !ok || !c04isWeight(st.Addr) {
 			return
 		}
 		if !derives(st.Val, isFloatSub) {
 			return
 		}
 		n++
-		// clamp: the stored value is a merge of the raw value and the constant 0, the 0 chosen under raw < 0
-		okClamp := false
-		for _, d := range defsOf(st.Val) {
-			k, isK := d.Val.(*ssa.Const)
-			if !isK || k.Value == nil || k.Float64() != 0 || d.Block == nil {
-				continue
+		okClamp, nRaw := true, 0
+		for _, lf := range c04leaves(st.Val, st.Block()) {
+			if !derives(lf.v, isFloatSub) {
+				continue // the constant 0, a fixed weight ...
 			}
-			for _, ft := range factsAt(d.Block) {
-				if b, ok := ft.Cond.(*ssa.BinOp); ok && derives(b.X, isFloatSub) {
-					if z, isZ := b.Y.(*ssa.Const); isZ && z.Value != nil && z.Float64() == 0 {
-						if (b.Op == token.LSS && ft.Truth) || (b.Op == token.GEQ && !ft.Truth) || (b.Op == token.LEQ && ft.Truth) {
-							okClamp = true
-						}
-					}
+			nRaw++
+			if !c04nonNegative(lf, isFloatSub) {
+				okClamp = false
+			}
+		}
+		c.check("C04.R6", "ring builder|remainder weight clamped at zero", st.Pos(), okClamp && nRaw > 0,
+			"the share left for targets without a fixed weight is computed by subtraction; without the `< 0 => 0` clamp rounding (or fixed weights above 100%) yields a negative or spurious tiny weight: effective weights must be non-negative and a target that should get nothing must not receive a ring slot")
+	})
+	c.atLeast("C04.R6", "weights computed by subtraction in the ring builder", n, 1)
+}
+
+// c04nonNegative: the definition lf (a value derived from a float subtraction) is known not to be negative where it
+// is chosen.
+func c04nonNegative(lf c04leaf, isFloatSub func(ssa.Value) bool) bool {
+	// max(raw, 0) / math.Max(raw, 0)
+	if call, ok := lf.v.(*ssa.Call); ok {
+		if name := calleeName(&call.Call); name == "math.Max" || name == "builtin.max" {
+			for _, a := range call.Call.Args {
+				if k, ok := c04constFloat(a); ok && k >= 0 {
+					return true
 				}
 			}
 		}
-		// math.Max(0, x) form
-		if call, ok := st.Val.(*ssa.Call); ok && (calleeName(&call.Call) == "math.Max" || calleeName(&call.Call) == "builtin.max") {
-			okClamp = true
+	}
+	facts := c04edgeFacts(lf.b, lf.to)
+	same := samePath(lf.v)
+	isRaw := func(x ssa.Value) bool { return x == lf.v || same(x) }
+	for _, f := range facts {
+		// raw >= 0, !(raw < 0) ... on the value itself or on a value the raw difference was derived from with the same sign
+		if x, op, k, _, ok := c04cmp(f); ok && (isRaw(x) || (derives(lf.v, func(v ssa.Value) bool { return v == x }) && derives(x, isFloatSub))) {
+			if (op == token.GEQ && k >= 0) || (op == token.GTR && k >= 0) || (op == token.EQL && k >= 0) {
+				return true
+			}
 		}
-		c.check("C04.R6", "route.(*Route).weighTargets|remainder weight clamped at zero", st.Pos(), okClamp,
-			"the share left for targets without a fixed weight is computed by subtraction; without the `< 0 => 0` clamp rounding (or fixed weights above 100%) yields a negative or spurious tiny weight: effective weights must be non-negative and a target that should get nothing must not receive a ring slot")
+	}
+	// a - b under b <= a
+	var subs []*ssa.BinOp
+	derives(lf.v, func(v ssa.Value) bool {
+		if isFloatSub(v) {
+			subs = append(subs, v.(*ssa.BinOp))
+		}
+		return false
 	})
-	c.atLeast("C04.R6", "weights computed by subtraction in weighTargets", n, 1)
+	if len(subs) == 0 {
+		return false
+	}
+	for _, sub := range subs {
+		okSub := false
+		sa, sb := samePath(sub.X), samePath(sub.Y)
+		for _, f := range append(facts, factsAt(sub.Block())...) {
+			cmp, ok := f.Cond.(*ssa.BinOp)
+			if !ok {
+				continue
+			}
+			op := cmp.Op
+			if !f.Truth {
+				op = c04negate(op)
+			}
+			switch {
+			case sa(cmp.X) && sb(cmp.Y): // a op b
+				okSub = okSub || op == token.GEQ || op == token.GTR || op == token.EQL
+			case sb(cmp.X) && sa(cmp.Y): // b op a
+				okSub = okSub || op == token.LEQ || op == token.LSS || op == token.EQL
+			}
+		}
+		if !okSub {
+			return false
+		}
+	}
+	return true
 }
-
-// ---- C05.I1: URLs are compared by their text, never by pointer / shallow struct equality -------------------
